@@ -23,7 +23,8 @@ EXPLANATION = (
     ' The leaf numbering under a variable is accepted in three spellings (threaded index, shared counter, enumerate over a left-to-right generator); every leaf path is judged.'
     " Fourth round: Functor.functor and the slash operators (rules of C13) are conditions of 'a bound sub-category is handed out as it was matched'."
     ' Fifth round: the bindings reader replaces bound features as a whole and nothing else; every shared variable position is tested, independently of earlier bindings.'
-    ' Sixth round: the delimiter and associativity rules of C05 are clauses here (the patterns are read by Category.parse).')
+    ' Sixth round: the delimiter and associativity rules of C05 are clauses here (the patterns are read by Category.parse).'
+    ' Eleventh round: a feature is bound only on paths where it was found to be a variable itself (R6.4).')
 TRUSTED = ['CPython ast', 'sa/pysym.py path walker', 'rule table DESIGN.md C06']
 
 UNI = ru.UNI
